@@ -14,13 +14,14 @@
           first; it fails exactly below an orphan whose parent arrived later.
 
    Full statement and where the code departs from it:
-   * ancestors: "exactly the parent-linked path when b is an ancestor-or-self of a, a same-chain error otherwise".
-       - code as it is: two DIFFERENT headers of equal height give 200 []   (C04_ancestors_equal_height_refuted, known
-         finding C04-ancestors-equal-height-empty; repaired variant Query.ancestors_fixed = build/proposed-fixes/C04-1.diff
-         satisfies the full statement: C04_ancestors_fixed);  the code as it is satisfies it for all other arguments
-         (C04_ancestors_partial);
-       - orphans whose parent arrived later keep height 1: a genuine ancestor is refused (C04_ancestors_late_parent_refuted,
-         C04_common_ancestor_late_parent_refuted; known findings) - the statement is therefore proved for regular arguments.
+   * ancestors: "exactly the parent-linked path when b is an ancestor-or-self of a, a same-chain error otherwise":
+     C04_ancestors / C04_ancestors_iff / C04_path_unique - the full statement for the code as it is.
+     History: before the fix ed2f6a2 of /repo (= build/proposed-fixes/C04-1.diff) two DIFFERENT headers of equal height gave
+     200 [] ; that model (Query.ancestors_before_fix) was refuted (formerly C04_ancestors_equal_height_refuted) and satisfied
+     the statement only for the other arguments (formerly C04_ancestors_partial); finding C04-ancestors-equal-height-empty
+     is now "fixed", its witness stays in corpus/C04; QueryAncProofs.ancestors_before_fix_differs states the exact difference.
+   * orphans whose parent arrived later keep height 1: a genuine ancestor is refused (C04_ancestors_late_parent_refuted,
+     C04_common_ancestor_late_parent_refuted; known findings) - the statements are therefore proved for regular arguments.
    * common ancestor of an empty list / of a list containing genesis: answered 500 before the fixes 5ab472d / 5c09f8d of /repo,
      now 400 (C04_common_ancestor_endpoint_status). *)
 From Coq Require Import ZArith NArith List.
@@ -55,32 +56,22 @@ Proof. exact tips_spec. Qed.
 Theorem C04_connected_regular : forall s t x, wf s -> by_hash s t = Some x -> orph x = false -> regular s t.
 Proof. exact connected_regular. Qed.
 
-(* ancestors, repaired code: the full statement *)
-Theorem C04_ancestors_fixed : forall s a b, Valid s -> regular s a -> ancestors_answer_ok s a b (ancestors_fixed s a b).
-Proof. exact ancestors_fixed_spec. Qed.
+(* ancestors: the full statement (see ancestors_answer_ok) *)
+Theorem C04_ancestors : forall s a b, Valid s -> regular s a -> ancestors_answer_ok s a b (ancestors s a b).
+Proof. exact ancestors_spec. Qed.
 
-Theorem C04_ancestors_fixed_iff : forall s a b, Valid s -> regular s a ->
-  ((exists p, ancestors_fixed s a b = AOk p) <-> exists rb, by_hash s b = Some rb /\ reach s a rb).
-Proof. exact ancestors_fixed_iff. Qed.
+Theorem C04_ancestors_iff : forall s a b, Valid s -> regular s a ->
+  ((exists p, ancestors s a b = AOk p) <-> exists rb, by_hash s b = Some rb /\ reach s a rb).
+Proof. exact ancestors_iff. Qed.
 
 (* "exactly THE path": on a height-consistent walk the parent-linked path between two headers is unique *)
 Theorem C04_path_unique : forall s a b p, path s a b p -> regular s a -> forall q, path s a b q -> p = q.
 Proof. exact path_unique. Qed.
 
-(* ancestors, the code as it is: the statement for all arguments except two different headers of equal height *)
-Theorem C04_ancestors_partial : forall s a b, Valid s -> regular s a ->
-  (forall ra rb, by_hash s a = Some ra -> by_hash s b = Some rb -> height ra = height rb -> a = b) ->
-  ancestors_answer_ok s a b (ancestors s a b).
-Proof. exact ancestors_spec_partial. Qed.
-
-Theorem C04_ancestors_equal_height_refuted :
-  exists s a b, Valid s /\ regular s a /\ ancestors s a b = AOk [] /\ ~ ancestors_answer_ok s a b (ancestors s a b).
-Proof. exact ancestors_equal_height_refuted. Qed.
-
+(* without height-consistency (an orphan whose parent was stored after it) the statement fails *)
 Theorem C04_ancestors_late_parent_refuted :
   exists s a b rb, Valid s /\ by_hash s b = Some rb /\ reach s a rb /\
-    ancestors s a b = AErr EHigher /\ ancestors_fixed s a b = AErr EHigher /\
-    ~ ancestors_answer_ok s a b (ancestors_fixed s a b).
+    ancestors s a b = AErr EHigher /\ ~ ancestors_answer_ok s a b (ancestors s a b).
 Proof. exact ancestors_late_parent_refuted. Qed.
 
 (* common ancestor: an ancestor of all, strictly below the lowest given height, and no higher such header exists;
@@ -113,11 +104,9 @@ Print Assumptions C04_tip_longest.
 Print Assumptions C04_by_height.
 Print Assumptions C04_tips.
 Print Assumptions C04_connected_regular.
-Print Assumptions C04_ancestors_fixed.
-Print Assumptions C04_ancestors_fixed_iff.
+Print Assumptions C04_ancestors.
+Print Assumptions C04_ancestors_iff.
 Print Assumptions C04_path_unique.
-Print Assumptions C04_ancestors_partial.
-Print Assumptions C04_ancestors_equal_height_refuted.
 Print Assumptions C04_ancestors_late_parent_refuted.
 Print Assumptions C04_common_ancestor.
 Print Assumptions C04_common_ancestor_connected.
